@@ -1,6 +1,6 @@
 #!/bin/bash
-# usage: adopt.sh <PID> <k> : confirm demo on clean (exit 0) and mutated (non-zero) selftest tree, copy to /verif/seeded/<PID>_m<k>
-PID=$1; K=$2; SRC=/tmp/wt/$PID/mutants/m$K; DST=/verif/seeded/${PID}_m$K
+# usage: adopt.sh <PID> <k> [<k in seeded/>] : confirm demo on clean (exit 0) and mutated (non-zero) selftest tree, copy to /verif/seeded/<PID>_m<k>
+PID=$1; K=$2; DK=${3:-$2}; SRC=/tmp/wt/$PID/mutants/m$K; DST=/verif/seeded/${PID}_m$DK
 cd /tmp/selftest && git checkout -q --detach $(git -C /repo rev-parse HEAD) 2>/dev/null; git checkout -q -- .; git clean -qfd src
 git -C /repo diff | git apply 2>/dev/null; for f in $(git -C /repo ls-files --others --exclude-standard src); do mkdir -p $(dirname $f); cp /repo/$f $f; done
 PYTHONPATH=/tmp/selftest/src timeout 300 /venv/bin/python $SRC/demo.py > /tmp/demo_clean.log 2>&1; C=$?
